@@ -40,6 +40,7 @@ def run(ctx):
     R.rule("C17-R1", "user expression embedded in a built operator node only parenthesised / tighter-binding", floor=14)
     R.rule("C17-R2", "launcher backends share count/mapping; hardware index spelling depends on the loop index; dims stored by matching index", floor=16)
     R.rule("C17-R3", "count and mapping use the same header fields", floor=5)
+    R.rule("C17-R4", "header facts are derived from the matching operator flags (inclusive, direction, side)", floor=6)
 
     for name in ("getIterationCount", "makeDeclarationValue"):
         f = prog.fn(OF + name)
@@ -135,6 +136,54 @@ def run(ctx):
     g0 = [n for n in gic.walk() if n["k"] == "IfStmt" and "valid" in noid(render(kids(n)[0], False))]
     m0 = [n for n in mdvf.walk() if n["k"] == "IfStmt" and "valid" in noid(render(kids(n)[0], False))]
     R.ob("C17-R3", bool(g0) and bool(m0), OF + "*", "both refuse an invalid header", "%s:%d" % (gic.relfile, gic.d["line"]), "NULL for an unvalidated loop header")
+
+    # ---- R4: how the validated header facts the builders rely on are derived -------------------------------------
+    hc = prog.fn(OF + "hasValidCheck")
+    ws = {noid(render(strip(write_target(n)), False)): n for n in hc.walk() if write_target(n) is not None}
+    n_ = ws.get("this->checkIsInclusive")
+    txt = noid(render(kids(n_)[1], False)) if n_ is not None else ""
+    ok = n_ is not None and "lessThanEq" in txt and "greaterThanEq" in txt and "lessThan " not in txt.replace("lessThanEq", "") and "greaterThan " not in txt.replace("greaterThanEq", "") and "&" in txt
+    R.ob("C17-R4", ok, hc.q, "checkIsInclusive = opType & (<= | >=)", hc.site(n_) if n_ is not None else hc.relfile, "inclusive exactly for <= and >=: %s" % txt[:90])
+    n_ = ws.get("this->checkValueOnRight")
+    ok = n_ is not None and noid(render(kids(n_)[1], False)).replace(" ", "") == "(checkOrder<0)"
+    R.ob("C17-R4", ok, hc.q, "checkValueOnRight = (usesIterator(...) < 0)", hc.site(n_) if n_ is not None else hc.relfile, "bound on the right exactly when the iterator is the left operand")
+    ui = [f for f in prog.fns(OF + "usesIterator") if len(f.d["params"]) == 2]
+    if len(ui) != 1:
+        raise AnalysisBroken("usesIterator(binaryOpNode&, exprNode*&) vanished")
+    ui = ui[0]
+    c = ui.cfg
+    INu = c.facts_in()
+    pairs = set()
+    for r in (x for x in ui.walk() if x["k"] == "ReturnStmt"):
+        v = strip(kids(r)[0])
+        val = -int(strip(kids(v)[0])["v"]) if v["k"] == "UnaryOperator" and v.get("op") == "-" else (int(v["v"]) if v["k"] == "IntegerLiteral" else None)
+        fs = {noid(k) for (k, pol) in c.facts_at(r, INu) if pol}
+        side = "left" if any("opNode.leftValue" in k and "variable" in k for k in fs) and any("iterator" in k for k in fs) else ("right" if any("opNode.rightValue" in k and "variable" in k for k in fs) and any("iterator" in k for k in fs) else None)
+        # which operand is handed out as the bound
+        outw = [w for w in ui.walk() if write_target(w) is not None and noid(render(strip(write_target(w)), False)) == "value" and c.before(w, r)]
+        given = noid(render(kids(outw[-1])[1], False)) if outw else None
+        pairs.add((val, side, given))
+    ok = (-1, "left", "opNode.rightValue") in pairs and (1, "right", "opNode.leftValue") in pairs and any(p_[0] == 0 for p_ in pairs)
+    R.ob("C17-R4", ok, ui.q, "usesIterator: -1 / bound=right operand when the iterator is on the left, +1 / bound=left operand when on the right, 0 otherwise", "%s:%d" % (ui.relfile, ui.d["line"]), "returns %s" % sorted(pairs, key=str))
+    hu = prog.fn(OF + "hasValidUpdate")
+    c = hu.cfg
+    INh = c.facts_in()
+    pu = [n for n in hu.walk() if write_target(n) is not None and noid(render(strip(write_target(n)), False)) == "this->positiveUpdate"]
+    want = {"leftUnary": "leftIncrement", "rightUnary": "rightIncrement", "binary": "addEq"}
+    seen = {}
+    for n in pu:
+        rhs = noid(render(kids(n)[1], False))
+        fs = {noid(k) for (k, pol) in c.facts_at(n, INh) if pol}
+        neg = {noid(k) for (k, pol) in c.facts_at(n, INh) if not pol}
+        branch = "leftUnary" if any("exprNodeType::leftUnary" in k and "==" in k for k in fs) else ("rightUnary" if any("exprNodeType::rightUnary" in k and "==" in k for k in fs) else "binary")
+        seen[branch] = rhs
+    for br, flag in want.items():
+        ok = br in seen and flag in seen[br] and not any(o in seen[br] for o in ("Decrement", "subEq"))
+        R.ob("C17-R4", ok, hu.q, "positiveUpdate in the %s branch = opType & %s" % (br, flag), "%s:%d" % (hu.relfile, hu.d["line"]), "direction taken from the increment flag of this operator kind: %s" % seen.get(br, "missing")[:80])
+    vo = [n for n in hu.walk() if write_target(n) is not None and noid(render(strip(write_target(n)), False)) == "validOp"]
+    txts = [noid(render(kids(n)[1], False)) for n in vo]
+    ok = len(vo) == 3 and any("leftIncrement" in t and "leftDecrement" in t for t in txts) and any("rightIncrement" in t and "rightDecrement" in t for t in txts) and any("addEq" in t and "subEq" in t for t in txts)
+    R.ob("C17-R4", ok, hu.q, "accepted update operators: ++ -- (prefix/postfix), += -=", "%s:%d" % (hu.relfile, hu.d["line"]), "each branch accepts exactly its increment and decrement forms")
 
 
 META = {
